@@ -96,12 +96,22 @@ class Module:
     """what the two functions can see at module level: integer/string constants, compiled regexes, mutable containers
     (abstractly: the set of values that any call may have stored in them), helper functions"""
 
-    def __init__(self, tree: ast.Module):
+    def __init__(self, tree: ast.Module, sources=None, rel: str = ""):
         self.consts: Dict[str, object] = {}
         self.stores: Dict[str, list] = {}
         self.funcs: Dict[str, ast.FunctionDef] = {}
         self.changed = False
         for n in tree.body:
+            if isinstance(n, ast.ImportFrom) and sources is not None and n.level >= 1 and n.module:
+                # integer / string constants imported from a sibling module
+                base = rel.rsplit("/", n.level)[0]
+                other = f"{base}/{n.module.replace('.', '/')}.py"
+                if sources.has(other):
+                    theirs = Module(sources.tree(other)).consts
+                    for a in n.names:
+                        if a.name in theirs:
+                            self.consts[a.asname or a.name] = theirs[a.name]
+                continue
             if isinstance(n, ast.FunctionDef):
                 self.funcs[n.name] = n
             elif isinstance(n, (ast.Assign, ast.AnnAssign)) and n.value is not None:
@@ -338,6 +348,36 @@ class Walker:
                     out.append((isinstance(op, ast.IsNot), not_none_env, True, None))
                 return out
             ev = self.evaluator(env)
+            flipmap0 = {ast.Lt: ast.Gt, ast.LtE: ast.GtE, ast.Gt: ast.Lt, ast.GtE: ast.LtE, ast.Eq: ast.Eq, ast.NotEq: ast.NotEq}
+            for var, other, flip in ((l, r, False), (r, l, True)):
+                # len(text) op c : valid texts (hexadecimal numerals with any number of leading zeros) exist in every length >= 1
+                if isinstance(var, ast.Call) and isinstance(var.func, ast.Name) and var.func.id == "len" and len(var.args) == 1 \
+                        and isinstance(var.args[0], ast.Name) and isinstance(env.get(var.args[0].id), TextV) and type(op) in flipmap0:
+                    t_ = env[var.args[0].id]
+                    c = ev.const_int(other)
+                    if c is not None and not t_.prefix and not t_.may_be_empty and not t_.history:
+                        o = flipmap0[type(op)]() if flip else op
+                        tr, fr = _split_int(IntV(1, 1 << 20), o, c)
+                        out = []
+
+                        def text_of(rng):
+                            n_ = rng.lo
+                            return ("0" * (n_ - 1) + "f") if n_ > 16 else "f" * n_
+                        if tr is not None:
+                            out.append((True, dict(env), True, text_of(tr)))
+                        if fr is not None:
+                            out.append((False, dict(env), True, text_of(fr)))
+                        return out
+                # a value parsed from a valid text with base 16 lies in [0, 2**64): decide comparisons that hold on that whole range
+                if isinstance(var, ast.Name) and isinstance(env.get(var.id), ParsedV) and env[var.id].base == 16 and type(op) in flipmap0:
+                    pv = env[var.id]
+                    c = ev.const_int(other)
+                    if c is not None:
+                        o = flipmap0[type(op)]() if flip else op
+                        hi = (1 << (pv.mask_bits if pv.mask_bits is not None and pv.mask_bits < 64 else 64)) - 1
+                        tr, fr = _split_int(IntV(0, hi), o, c)
+                        if tr is None or fr is None:
+                            return [(tr is not None, dict(env), True, None)]
             for var, other, flip in ((l, r, False), (r, l, True)):
                 if isinstance(var, ast.Name) and isinstance(env.get(var.id), IntV):
                     c = ev.const_int(other)
@@ -627,7 +667,7 @@ def run(ctx):
     pars = ctx.sources.func(HEX, "hex_to_u64")
     ctx.analysed["functions"] = ["a5.core.hex.u64_to_hex", "a5.core.hex.hex_to_u64"]
 
-    mod = Module(ctx.sources.tree(HEX))
+    mod = Module(ctx.sources.tree(HEX), ctx.sources, HEX)
     for _ in range(4):      # what the module-level containers may hold, to a fix-point over both entry points
         mod.changed = False
         check_producer(ctx, prod, HEX, mod=mod)
